@@ -102,10 +102,25 @@ def op_term(o):
     if n == "RemoveGenes":
         return "(RemoveGenes [%s] %s)" % ("; ".join(str(k) for k in a[0]), b(a[1]))
     if n == "RenameGenes":
-        return "(RenameGenes [%s])" % "; ".join("(%d, %d)" % (k, v) for k, v in a[0])
+        return "(%s [%s])" % ("RenameGenesFixed" if VARIANT["rename"] == "repaired" else "RenameGenes",
+                              "; ".join("(%d, %d)" % (k, v) for k, v in a[0]))
     if n == "Repair":
         return "Repair"
     raise ValueError(n)
+
+
+# Which rename_genes is under test: "as-implemented" (a gene marked for removal is always removed: known finding
+# C02-rename-genes-chain) or "repaired" (fixes/rename-genes-chain.patch).  Both are modelled (RenameGenes /
+# RenameGenesFixed in coq/theories/Genes/Model.v); one probe decides, then every step must match that variant.
+VARIANT = {"rename": "as-implemented"}
+
+
+def probe_variant():
+    im = Impl(1)
+    for o in (["SetRule", 0, ["and", [["g", 0], ["g", 1]]], "str"], ["AddRxn", 0], ["RenameGenes", [[0, 1], [1, 0]]]):
+        im.apply(o)
+    VARIANT["rename"] = "repaired" if sorted(g.id for g in im.model.genes) == ["g0", "g1"] else "as-implemented"
+    return VARIANT["rename"]
 
 
 # ------------------------------------------------------------------ implementation runner
@@ -448,6 +463,7 @@ def load_corpus():
 def run(rep, args, rng):
     """Called by core.main for C02: evaluates histories of the genes kernel and reports violations."""
     t0 = time.time()
+    probe_variant()
     if args.replay:
         data = json.load(open(args.replay))
         if data.get("kernel") != "genes":
@@ -537,6 +553,7 @@ def run(rep, args, rng):
                   "theorem": "coq/theories/Properties/C02.v (C02_genes_*)"}
         reported.append({"signature": sig, "status": rep.violation(sig, replay)})
     return {"histories": len(cases), "distinct_histories": len(distinct), "steps_observed": n_steps,
+            "rename_genes_variant_under_test": VARIANT["rename"],
             "corpus_cases": 0 if args.replay else n_corpus, "op_distribution": op_hist, "result_distribution": res_hist,
             "features": feat, "histories_failing": n_fail, "reported": reported,
             "samples": [cases[i] for i in sorted({0, len(cases) // 2, len(cases) - 1})] if cases else [],
